@@ -180,7 +180,9 @@ def dbStep (d : DbSt) (toks : List String) : DbSt × String :=
     else
       let nts := DB.maxTs (DB.present s.d) + 1
       let d' := { s.d with nextTs := nts }
-      let o' : Oracle2.St := { s.o with readMark := nts - 1, recent := [], nextTs := nts }
+      -- handles of the previous Open belong to its oracle, which is gone: they no longer hold the new read mark back
+      let o' : Oracle2.St := { s.o with readMark := nts - 1, recent := [], nextTs := nts,
+                                        txns := s.o.txns.map fun t => { t with finished := true, doneRead := true } }
       ({ d with s := { s with d := d', o := o', commitMark := nts - 1, inflight := none, applied := false }, closed := false },
         toString nts)
   | ["nextts"] => (d, toString s.o.nextTs)
